@@ -44,7 +44,7 @@ PROBES = ['A-no-address', 'A-all-refused', 'A-second-address-used', 'A-closed-du
           'B-loss-with-pending-calls', 'B-loss-with-deadline', 'B-proxy-explicit',
           'B-proxy-introspected', 'B-proxy-by-name', 'B-two-proxies-same-object',
           'B-introspection-in-flight-at-loss', 'B-errback-issues-call', 'B-reset',
-          'B-client-disconnect', 'B-callback-cancelled', 'B-proxy-dropped']
+          'B-client-disconnect', 'B-callback-cancelled', 'B-proxy-dropped', 'B-second-connection']
 COMPONENTS = {
     'real': ['txdbus.client.connect / DBusClientFactory / DBusClientConnection',
              'txdbus.endpoints.getDBusEndpoints', 'twisted UNIXClientEndpoint / TCP4ClientEndpoint / '
@@ -67,6 +67,20 @@ ADDRS = [
     (None, 'launchd:env=DBUS_LAUNCHD_SESSION_BUS_SOCKET'),
     ('unix', 'unix:path=/tmp/sim-bus-c,guid=0011'),
 ]
+
+
+def expected_address(entry):
+    """what the DBus address entry designates (written from the specification)"""
+    import os
+    kind, _, rest = entry.partition(':')
+    kv = dict(x.split('=', 1) for x in rest.split(',') if '=' in x)
+    if kind == 'unix':
+        if 'path' in kv:
+            return kv['path']
+        if 'abstract' in kv:
+            return '\0' + kv['abstract']
+        return None          # tmpdir designates a listening directory: not judged
+    return (kv['host'], int(kv['port']))
 
 
 class Connector:
@@ -104,7 +118,8 @@ def part_a(ctx):
     def handler(kind, addr, factory):
         idx = len(attempts)
         c = Connector(idx)
-        attempts.append({'kind': kind, 'factory': factory, 'connector': c, 'done': False})
+        attempts.append({'kind': kind, 'factory': factory, 'connector': c, 'done': False,
+                         'addr': addr})
         sim.log('connect-attempt', idx, kind)
         factory.doStart()
         factory.startedConnecting(c)
@@ -194,6 +209,12 @@ def part_a(ctx):
             if a['kind'] != real[i][0]:
                 raise Violation('C09/attempt-order', 'kind', 'attempt %d is %s, address list has %s'
                                 % (i, a['kind'], real[i][0]))
+            want = expected_address(real[i][1])
+            if want is not None and a['addr'] != want:
+                raise Violation('C09/attempt-address', 'entry %s after %s' % (
+                    real[i][1].split('=')[0], real[i - 1][1].split('=')[0] if i else 'none'),
+                    'attempt %d for address entry %r connects to %r, expected %r'
+                    % (i, real[i][1], a['addr'], want))
         if accepted and len(attempts) > accepted[0] + 1:
             raise Violation('C09/attempt-after-reachable', 'later address tried',
                             'address %d was tried after address %d had been reachable'
@@ -287,6 +308,21 @@ def part_b(ctx):
     d1 = gen.interface(ds, 'org.sim.Alpha', rich=False, props=False)
     d2 = gen.interface(ds, 'org.sim.Beta', rich=False, props=False)
     paths = ['/obj/a', '/obj/b']
+
+    # a second, independent connection held by the same process (session + system bus, say)
+    rig2 = None
+    other_cbs = []
+    if ds.flag(0.4):
+        sim.probe('B-second-connection')
+        rig2 = ClientRig(ctx, name='c2', bus_name=':1.43')
+        for k in range(1 + ds.choose(2)):
+            rec2 = {'hits': [], 'active': True}
+            rec2['fn'] = (lambda rec2: (lambda obj, reason: rec2['hits'].append((obj, reason))))(rec2)
+            other_cbs.append(rec2)
+            rig2.call(rig2.proto.notifyOnDisconnect, rec2['fn'])
+        d_other = rig2.call(rig2.proto.callRemote, '/o', 'Other', interface='org.sim.Alpha',
+                            destination=SVC, timeout=ds.pick([None, 10.0]))
+        other_call = Obs(sim, 'other-call', []).watch(d_other)
 
     def on_msg(m):
         if m.mtype != rc.METHOD_CALL or m.fields.get(rc.F_DESTINATION) != SVC:
@@ -518,6 +554,34 @@ def part_b(ctx):
                     raise Violation('C09/proxy-callback', 'wrong argument', 'callback got %r' % (obj,))
     if any(p['failed'] for p in proxies):
         sim.probe('B-introspection-in-flight-at-loss')
+    # the other connection of the process is untouched by this loss ...
+    if rig2 is not None:
+        for r in other_cbs:
+            if r['hits']:
+                raise Violation('C09/other-connection', 'callback of another connection ran',
+                                'losing one connection ran a disconnect callback registered on '
+                                'another connection of the same process')
+        if other_call.fired and not (other_call.fired[0][0] == 'err' and
+                                     other_call.fired[0][1].check(t_error.TimeOut)):
+            raise Violation('C09/other-connection', 'call of another connection failed',
+                            'losing one connection completed a call pending on another: %r'
+                            % (other_call.fired,))
+        nhits = [len(r['hits']) for r in conn_cbs]
+        # ... and when it is lost in turn, only its own callbacks and calls are concerned
+        rig2.daemon.transport.loseConnection()
+        sched.drain(100, None, None, fire_timers=False)
+        check_no_exceptions(sim, 'C09')
+        for r in other_cbs:
+            if len(r['hits']) != 1 or r['hits'][0][0] is not rig2.proto:
+                raise Violation('C09/conn-callback', 'second connection: ran %d times' % len(r['hits']),
+                                'disconnect callback of the second connection ran %d times'
+                                % len(r['hits']))
+        if [len(r['hits']) for r in conn_cbs] != nhits:
+            raise Violation('C09/other-connection', 'callback of the first connection ran again',
+                            'losing the second connection ran callbacks of the first one again')
+        if len(other_call.fired) != 1:
+            raise Violation('C09/call-not-failed', 'second connection',
+                            'call pending on the second connection fired %d times' % len(other_call.fired))
     # nothing fires afterwards
     lost_mark = lost[0]
     lost[0] = 'settled'
